@@ -50,6 +50,9 @@ class InterpBase(CtxMixin):
         self.prove_hook = None
         self.read_log = None
         self.list_births = {}
+        self.cached_lists = {}
+        self.in_loop_step = 0
+        self.sticky_effects = []
         self.summary_floor = None
         self.global_orig = {}
         self.read_base = 0
@@ -855,6 +858,9 @@ class InterpBase(CtxMixin):
     def note_effect(self, kind, what):
         if self.effects is not None:
             self.effects.append((kind, what))
+            if self.in_loop_step:
+                # the step path of a loop rule ends there; its effects belong to every path of the function
+                self.sticky_effects.append((kind, what))
 
     def note_global_read(self, module, name, v):
         pass
